@@ -14,7 +14,9 @@ fn decode_grey<T: Pixel>(c: &YuvConfig, lumas: &[u16]) -> Result<Vec<[f32; 3]>, 
     let codes: Vec<[u16; 3]> = lumas.iter().map(|y| [*y, half, half]).collect();
     // two rows and unequal per-plane paddings when the ramp length allows it: neutrality must not depend on layout
     let (w, h) = if codes.len() % 2 == 0 { (codes.len() / 2, 2) } else { (codes.len(), 1) };
-    let frame = frame444_pads::<T>(&codes, w, h, [(0, 0), (3, 1), (17, 0)]);
+    // (paddings chosen so that the U and V strides really differ: 0 vs 40 crosses the 64-byte alignment)
+    let pads = if c.bit_depth % 2 == 0 { [(0, 0), (0, 1), (40, 0)] } else { [(3, 0), (40, 0), (0, 1)] };
+    let frame = frame444_pads::<T>(&codes, w, h, pads);
     let yuv = Yuv::<T>::new(frame, *c).map_err(|e| format!("Yuv::new: {e:?}"))?;
     Ok(Rgb::try_from(&yuv).map_err(|e| format!("decode: {e:?}"))?.into_data())
 }
